@@ -659,6 +659,9 @@ func (g *G) heredoc(depth int) *Node {
 			ps = append([]interface{}{p}, ps...)
 		}
 	}
+	if g.R.Chance(1, 8) {
+		openTxt = g.R.Pick("b", "B") + openTxt // the binary-string prefix is part of the opener
+	}
 	if indent != "" {
 		// the indentation of the closing line is part of the last text part in this AST
 		last := ns[len(ns)-1]
